@@ -1,5 +1,6 @@
 import RuxModel.Drv.Common
 import RuxModel.Model.Reg
+import RuxModel.Model.Rest
 /-
   driver engine `reg`: registration programs (C12, C04 chain assembly, C16 through `resource`).
 
@@ -15,10 +16,13 @@ import RuxModel.Model.Reg
     resource <rid> <kind> <base> <resname> <implmask> <usesmask> <arg>
     notfound <arg> | notallowed <arg>
     run                                          -> ok <#routes> ;; <pfx> <#grp> <#globals>  |  panic:msg
-    info <id>                                    -> <path> <name> <methods> <handler tags>
-    serve <id> <method>                          -> the chain (tags in start order) of a request for route <id>
+    info <id>                                    -> route <path> <name> <methods> <handler tags>
+    serve <id> <method>                          -> served|notallowed|notfound <chain: tags in start order> for a request to route <id>
     miss                                         -> the chain of a request that matches nothing
     routes                                       -> every (methods,path,name), sorted
+    named                                        -> name=path of every named route, sorted
+    probe <method> <path>                        -> chain of an arbitrary request, ` allow=<methods>` for a 405
+                                                    (lookup of Model/Rest.lean: only for tables of REST shape, engine `rest`)
 
   <arg>  = `-` | tags[`+`spare] | `@`bid`:`lo`:`hi      (spare capacity only matters on the Go side)
   <pre>/<post> = `-` | call(`/`call)*,  call = `e` (a Use call without arguments) | <arg>
@@ -158,6 +162,14 @@ def sortStrs (l : List String) : List String := l.foldr insertStr []
 def d404 : H := 404
 def d405 : H := 405
 
+/-- answer of a request: how it resolved and the chain that runs -/
+def chainAns (st : RS) (res : Resolved) : String :=
+  let kind := match res with
+    | .found _ => "served"
+    | .notAllowed => "notallowed"
+    | .notFound => "notfound"
+  kind ++ " " ++ natList (chain d404 d405 st.toScope res)
+
 def regStep (s : RegSt) : List String → RegSt × String
   | ["new", o] => ({ RegSt.init with opt405 := o = "1" }, "ok")
   | ["buf", b, tags] =>
@@ -182,7 +194,7 @@ def regStep (s : RegSt) : List String → RegSt × String
     | none, _ => (s, "skipped")
     | some st, some id =>
       match routeById st id with
-      | some r => (s, s!"{Bytes.toHex r.path} {Bytes.toHex r.name} {methodsStr r.methods} {natList r.handlers}")
+      | some r => (s, s!"route {Bytes.toHex r.path} {Bytes.toHex r.name} {methodsStr r.methods} {natList r.handlers}")
       | none => (s, "none")
     | _, none => (s, "bad-op")
   | ["serve", id, m] =>
@@ -196,19 +208,38 @@ def regStep (s : RegSt) : List String → RegSt × String
           if r.methods.contains mb then Resolved.found r
           else if m = "HEAD" ∧ r.methods.contains (Bytes.ofString "GET") then Resolved.found r
           else if s.opt405 then Resolved.notAllowed else Resolved.notFound
-        (s, natList (chain d404 d405 st.toScope res))
+        (s, chainAns st res)
       | none => (s, "none")
     | _, none => (s, "bad-op")
   | ["miss"] =>
     match s.st with
     | none => (s, "skipped")
-    | some st => (s, natList (chain d404 d405 st.toScope .notFound))
+    | some st => (s, chainAns st .notFound)
   | ["routes"] =>
     match s.st with
     | none => (s, "skipped")
     | some st =>
       let ts := st.routes.map fun r => s!"{methodsStr r.methods}:{Bytes.toHex r.path}:{Bytes.toHex r.name}"
-      (s, if ts.isEmpty then "-" else String.intercalate " " (sortStrs ts))
+      (s, "triples " ++ (if ts.isEmpty then "-" else String.intercalate " " (sortStrs ts).eraseDups))
+  | ["named"] =>
+    match s.st with
+    | none => (s, "skipped")
+    | some st =>
+      let names := (st.routes.map (·.name)).filter (· ≠ [])
+      let ts := names.filterMap fun n => (namedRoute st n).map fun r => s!"{Bytes.toHex n}={Bytes.toHex r.path}"
+      (s, "names " ++ (if ts.isEmpty then "-" else String.intercalate " " (sortStrs ts).eraseDups))
+  | ["probe", m, p] =>
+    match s.st, Bytes.ofHex p with
+    | none, _ => (s, "skipped")
+    | some st, some p =>
+      match resolve s.opt405 st.routes (ascii m) (cleanFmt p) with
+      | .served r => (s, chainAns st (.found r))
+      | .notAllowed alm =>
+        -- the Allow header is written by the built-in 405 handler only
+        (s, chainAns st .notAllowed ++
+              (if st.noAllowed.isEmpty then " allow=" ++ String.intercalate "," (sortStrs (alm.map bytesToString)) else ""))
+      | .notFound => (s, chainAns st .notFound)
+    | _, none => (s, "bad-op")
   | l =>
     if isProgLine l then
       if lineOk s.bufs l then ({ s with lines := l :: s.lines }, "ok") else (s, "bad-op")
